@@ -18,6 +18,9 @@ pub fn run(args: &Args) -> Report {
             return rep;
         }
     };
+    // documents are generated from the table of the shipped code and, every second one, from the table of the fresh
+    // expansion (identical while C20 holds)
+    let gf = Grammar::load_path("work/translate/grammar_fresh.txt").ok();
     let mut rng = Rng::new(args.seed);
     let ndocs = if args.thorough { 3000 } else { 250 };
     let mut texts: Vec<String> = vec![];
@@ -25,7 +28,11 @@ pub fn run(args: &Args) -> Report {
         texts.push(String::from_utf8_lossy(&unhex(input.split_whitespace().last().unwrap_or("-"))).into_owned());
     } else {
         for d in 0..ndocs {
-            let toks = gen_document(&g, &mut rng, GenOpts { version: [6u8, 6, 5, 3, 1][d % 5], deprecated: d % 2 == 0, opt_prob: [20, 50][d % 2], specials: d % 4 == 1, ..GenOpts::default() });
+            let gd = match (&gf, d % 2) {
+                (Some(x), 1) => x,
+                _ => &g,
+            };
+            let toks = gen_document(gd, &mut rng, GenOpts { version: [6u8, 6, 5, 3, 1][d % 5], deprecated: d % 2 == 0, opt_prob: [20, 50][d % 2], specials: d % 4 == 1, ..GenOpts::default() });
             let text = render(&toks, &mut rng, [Layout::Canonical, Layout::Wild, Layout::Dense][d % 3], d % 11 == 0);
             if d % 3 == 0 {
                 for m in crate::soup::token_mutations(&text, &mut rng, 4) {
@@ -48,6 +55,10 @@ pub fn run(args: &Args) -> Report {
                 Loaded::Err(_) => rep.bump("outcome:err"),
             }
             if let Some((req, ans)) = tie_case(text, strict) {
+                // the same request for the model instantiated with the table of the fresh expansion
+                if let Some(rest) = req.strip_prefix("a2l ") {
+                    rep.tie(format!("a2lfresh {rest}"), ans.clone());
+                }
                 rep.tie(req, ans);
             }
         }
